@@ -1150,6 +1150,8 @@ func rulePanic(c *Ctx) {
 						c.ok(key, x.Pos(), "tabled: %s", why)
 					} else if role := assertRole(x); role != "" && assertTable[role] != "" && strings.HasPrefix(k, "interp.") {
 						c.ok(key, x.Pos(), "tabled by role %s: %s", role, assertTable[role])
+					} else if why, ok := tabledThroughCallers(c, assertTable, short, fn, tn, 0); ok {
+						c.ok(key, x.Pos(), "tabled through its only callers: %s", why)
 					} else {
 						c.bad(key, x.Pos(), "unchecked type assertion to %s in %s panics if the dynamic type differs and is not tabled with an argument why it cannot", tn, k)
 					}
@@ -1313,6 +1315,10 @@ func quoteMetaOfOneRune(in ssa.Instruction, pat ssa.Value) bool {
 // mustTabledThroughCallers: every static caller of fn (there is at least one, and fn is not used as a value) is in the
 // table of accepted Must* sites for the same callee - directly or, again, through its own callers.
 func mustTabledThroughCallers(c *Ctx, short string, fn *ssa.Function, what string, depth int) (string, bool) {
+	return tabledThroughCallers(c, mustTable, short, fn, what, depth)
+}
+
+func tabledThroughCallers(c *Ctx, table map[string]string, short string, fn *ssa.Function, what string, depth int) (string, bool) {
 	if depth > 2 || fn == nil {
 		return "", false
 	}
@@ -1346,14 +1352,14 @@ func mustTabledThroughCallers(c *Ctx, short string, fn *ssa.Function, what strin
 		}
 		k := strings.ReplaceAll(fnKey(g), "(*", "")
 		k = strings.ReplaceAll(k, ")", "")
-		if why, ok := mustTable[k+":"+what]; ok {
+		if why, ok := table[k+":"+what]; ok {
 			if k == "interp.interp.setSpecial" {
 				return "", false // that entry has a side condition on the call site itself
 			}
 			reason = why
 			continue
 		}
-		why, ok := mustTabledThroughCallers(c, short, g, what, depth+1)
+		why, ok := tabledThroughCallers(c, table, short, g, what, depth+1)
 		if !ok {
 			return "", false
 		}
